@@ -235,28 +235,85 @@ def r3_r4(ctx, eff):
 
 
 def r6(ctx, sch):
-    from ..absint import Sym, Opaque
-    f = require_func(ctx, "interface.FeatureDB.add_relation")
-    P, C = Opaque("P", "Feature"), Opaque("C", "Feature")
-    n = 0
-    for label, parent, child, want in (("Feature arguments", P, C, ["P.id", "C.id", "level"]), ("id arguments", "pid", "cid", None)):
-        summ = {"interface.FeatureDB.__getitem__": lambda i, pos, kw, node: Opaque("stored(%s)" % pos[0], "Feature")}
-        for t in _traces(ctx, f, {"parent": parent, "child": child, "level": Sym("level", "int", True)}, _self(Sym("dbfn", "str", True)), summaries=summ):
-            ins = []
-            for e in t.executes():
-                try:
-                    st = S.parse(e[1] if isinstance(e[1], str) else str(e[1]))
-                except S.SQLError:
-                    continue
-                if st.verb == "INSERT" and st.table.lower() == "relations":
-                    cols = [c.lower() for c in (st.columns or sch["relations"]["columns"])]
-                    vals = [getattr(x, "name", x) for x in e[2]] if isinstance(e[2], (list, tuple)) else []
-                    ins.append(dict(zip(cols, vals)))
-            n += len(ins)
-            exp = {"parent": "P.id", "child": "C.id", "level": "level"} if want else {"parent": "stored(pid).id", "child": "stored(cid).id", "level": "level"}
-            ctx.ob("R6", ins == [exp], "add_relation inserts exactly (parent id, child id, level)%s" % ("" if want else "; an id is resolved to the stored feature first"), func=f,
-                   sig="add_relation(%s) row %s" % (label, ins))
-    ctx.floor("R6", n, 1, "relation inserts in add_relation")
+    r_history(ctx)
+
+
+def r_history(ctx):
+    """A history create -> update -> empty update -> add_relation -> delete, evaluated on the model database step by step and
+    compared after every step with a reference model of features and relations."""
+    from . import scen
+    fu = require_func(ctx, "interface.FeatureDB.update")
+    fd = require_func(ctx, "interface.FeatureDB.delete")
+    fa = require_func(ctx, "interface.FeatureDB.add_relation")
+    lines = scen.gff_lines()
+    im, _t = scen.run_create(ctx, "_GFFDBCreator", lines, directives=["gff-version 3"])
+    db = im.db
+    counters = {r[0]: r[1] for r in db.rows("autoincrements")}
+    it, me, conn = scen.feature_db(ctx, db, counters=counters)
+    ids = [f.attrs["id"] for f in lines]
+    model_f = list(ids)
+    model_r = set(scen.expected_relations(lines, ids))
+
+    def state():
+        return [r[0] for r in db.rows("features", ["id"])], db.rows("relations")
+
+    def step(qual, **args):
+        t_ = scen.call_method(ctx, it, me, qual, **args)
+        scen.returned(ctx, t_, qual.split(".", 1)[1], func=require_func(ctx, qual), rule="R5")
+        return t_
+
+    def compare(rule, step, func, what):
+        gf, gr = state()
+        okf = sorted(gf, key=str) == sorted(model_f, key=str)
+        okr = set(gr) == model_r and len(gr) == len(set(gr))
+        ctx.ob(rule, okf and okr, "after %s the stored features and relations are exactly those of the reference model (%s)" % (step, what), func=func,
+               sig="%s: database equals the model" % step if okf and okr else
+               "%s: features +%s -%s, relations +%s -%s" % (step, sorted(set(map(str, gf)) - set(map(str, model_f)))[:3], sorted(set(map(str, model_f)) - set(map(str, gf)))[:3],
+                                                            sorted(set(gr) - model_r)[:3], sorted(model_r - set(gr))[:3]))
+    compare("R5", "create", fu, "the starting point")
+    # ---- update with three new lines (one without an ID: the per-type counter continues)
+    more = [scen.feature("N1", "exon", 460, 480, {"ID": ["e9"], "Parent": ["t1"]}), scen.feature("N2", "match_part", 10, 20, {"ID": ["p2"], "Parent": ["e1"]}),
+            scen.feature("N3", "region", 5, 6, {"Note": ["second unnamed region"]}, strand=".")]
+    t = step("interface.FeatureDB.update", data=list(more), make_backup=False)
+    new_ids = [f.attrs["id"] for f in more]
+    model_f += new_ids
+    model_r = set(scen.expected_relations(lines + more, ids + new_ids))
+    compare("R5", "update with three new lines", fu, "update adds the features and their first- and second-level relations, nothing else")
+    ctx.ob("R3", new_ids[2] == "region_2", "an automatically numbered key continues the numbering of the database (region_1 exists, the next is region_2)", func=fu,
+           sig="second unnamed region stored as %s" % new_ids[2])
+    stored_counter = dict((r[0], r[1]) for r in db.rows("autoincrements")).get("region")
+    live = me.attrs["_autoincrements"].get("region") if hasattr(me.attrs["_autoincrements"], "get") else None
+    ctx.ob("R3", stored_counter == 2 and live == 2, "after the update the counter is 2 both in the autoincrements table and in the open FeatureDB", func=fu,
+           sig="counter region: table %s, FeatureDB %s" % (stored_counter, live))
+    # ---- an update whose source yields nothing
+    before = (state(), db.rows("autoincrements"), db.rows("meta"), db.rows("directives"))
+    n_log = len(db.log)
+    t = step("interface.FeatureDB.update", data=[], make_backup=False)
+    after = (state(), db.rows("autoincrements"), db.rows("meta"), db.rows("directives"))
+    writes = [x for x in db.log[n_log:] if x[0] in ("INSERT", "UPDATE", "DELETE", "INSERT-IGNORED")]
+    ctx.ob("R4", before == after and not writes, "an update with no features changes nothing", func=fu, sig="empty update: %d row(s) written" % len(writes))
+    # ---- add_relation by ids and by Feature objects
+    t = step("interface.FeatureDB.add_relation", parent="g1", child="o1", level=1)
+    model_r.add(("g1", "o1", 1))
+    compare("R6", "add_relation('g1', 'o1', 1)", fa, "exactly the row (parent id, child id, level) is added")
+    P = step("interface.FeatureDB.__getitem__", key="t2").result[1]
+    C = step("interface.FeatureDB.__getitem__", key="p2").result[1]
+    t = step("interface.FeatureDB.add_relation", parent=P, child=C, level=2)
+    model_r.add(("t2", "p2", 2))
+    compare("R6", "add_relation(Feature t2, Feature p2, 2)", fa, "Feature arguments contribute their ids")
+    # ---- delete by id, by Feature, by list
+    for what, arg, gone in (("delete('t1')", "t1", ["t1"]), ("delete(Feature p2)", C, ["p2"]), ("delete(['e3', 'o1'])", ["e3", "o1"], ["e3", "o1"])):
+        t = step("interface.FeatureDB.delete", features=arg, make_backup=False)
+        for g in gone:
+            if g in model_f:
+                model_f.remove(g)
+            model_r = {r for r in model_r if r[0] != g and r[1] != g}
+        compare("R2", what, fd, "delete removes the feature and every relation mentioning it, and nothing else")
+    # ---- after the deletions an unnamed feature still gets a fresh key
+    t = step("interface.FeatureDB.update", data=[scen.feature("N4", "region", 7, 8, {"Note": ["third"]}, strand=".")], make_backup=False)
+    gf, _gr = state()
+    ctx.ob("R3", "region_3" in gf and gf.count("region_3") == 1, "keys handed out earlier are never handed out again (the third unnamed region is region_3)", func=fu,
+           sig="third unnamed region stored: %s" % [x for x in gf if str(x).startswith("region")])
 
 
 def check(ctx):
